@@ -280,6 +280,8 @@ impl ErrorMessage {
 }
 
 pub fn exit_with_error(error: Error) -> Result<()> {
+  #[cfg(feature = "verif-hooks")]
+  ast_grep_core::verif::flush_counters();
   if let Some(e) = error.downcast_ref::<clap::Error>() {
     e.exit()
   }
